@@ -46,6 +46,10 @@ def chkSame : Bool :=
   (acceptedBytes false).all fun a => (acceptedBytes false).all fun b =>
     (!(isACGT a)) || ((enc false a == enc false b) == (upper a == upper b))
 
+def chkResolvedDiffer : Bool :=
+  (acceptedBytes false).all fun a => (acceptedBytes false).all fun b =>
+    (!(isACGT a && isACGT b)) || (encDiffer (enc false a) (enc false b) == !(enc false a == enc false b))
+
 /-! witness search (used by the driver when an obligation no longer checks) -/
 def encWitnesses : List String :=
   let modes := [false, true]
@@ -64,6 +68,7 @@ def encWitnesses : List String :=
       | some m => (scoreOf (enc false b) * popcount4 m == 12) == false
       | none => true).map fun b => s!"FAIL score byte={b} score={scoreOf (enc false b)}") ++
   (if chkTransitions then [] else ["FAIL transitions (a|b)==200 / ==56 no longer mean {A,G} / {C,T}"]) ++
+  (if chkResolvedDiffer then [] else ["FAIL resolved-differ: two resolved bases test as different iff their codes differ"]) ++
   (if chkSame then [] else ["FAIL same-code: equal codes on resolved bases no longer mean equal bases"])
 
 end Gofasta.Spec
